@@ -2,6 +2,7 @@
 import copy
 import hashlib
 import pickle
+import re
 
 from . import env  # noqa: F401
 import dd.bdd
@@ -58,6 +59,9 @@ def clone(m):
     return c
 
 
+_ADDRESS = re.compile(r' at 0x[0-9a-fA-F]+')
+
+
 def _canon(v):
     t = type(v)
     if t is dict:
@@ -68,7 +72,9 @@ def _canon(v):
         return ('L',) + tuple(_canon(x) for x in v)
     if t in (int, bool, str, float, type(None)):
         return v
-    return ('R', repr(v))
+    # any other object (a bound method kept as an attribute, a helper object): its repr without
+    # the memory address, which differs from one construction of the same state to the next
+    return ('R', _ADDRESS.sub('', repr(v)))
 
 
 def key(m, extra=None):
